@@ -18,6 +18,7 @@ package rules
 
 import (
 	"slices"
+	"strings"
 	"sync"
 
 	"github.com/dadrus/heimdall/internal/heimdall"
@@ -59,7 +60,7 @@ func (r *repository) FindRule(ctx heimdall.Context) (rule.Rule, error) {
 	defer r.rulesTreeMutex.RUnlock()
 
 	entry, err := r.index.Find(
-		x.IfThenElse(len(request.URL.RawPath) != 0, request.URL.RawPath, request.URL.Path),
+		x.IfThenElse(len(request.URL.RawPath) != 0, decodeUnreserved(request.URL.RawPath), request.URL.Path),
 		radixtree.LookupMatcherFunc[rule.Route](func(route rule.Route, keys, values []string) bool {
 			return route.Matches(ctx, keys, values)
 		}),
@@ -204,4 +205,53 @@ func (r *repository) removeRulesFrom(tree *radixtree.Tree[rule.Route], tbdRules 
 	}
 
 	return nil
+}
+
+// decodeUnreserved decodes the percent-encoded unreserved characters (letters, digits, '-', '.',
+// '_' and '~') of the given path. URIs differing only in such encodings are equivalent
+// (RFC 3986, section 6.2.2.2), so they must match the same path expressions. Everything else,
+// in particular encoded slashes, is left as is.
+func decodeUnreserved(path string) string {
+	if !strings.Contains(path, "%") {
+		return path
+	}
+
+	unhex := func(c byte) (byte, bool) {
+		switch {
+		case '0' <= c && c <= '9':
+			return c - '0', true
+		case 'a' <= c && c <= 'f':
+			return c - 'a' + 10, true //nolint:mnd
+		case 'A' <= c && c <= 'F':
+			return c - 'A' + 10, true //nolint:mnd
+		}
+
+		return 0, false
+	}
+
+	var builder strings.Builder
+
+	builder.Grow(len(path))
+
+	for i := 0; i < len(path); i++ {
+		if path[i] == '%' && i+2 < len(path) { //nolint:mnd
+			high, okHigh := unhex(path[i+1])
+			low, okLow := unhex(path[i+2])
+			char := high<<4 | low //nolint:mnd
+
+			if okHigh && okLow &&
+				('a' <= char && char <= 'z' || 'A' <= char && char <= 'Z' || '0' <= char && char <= '9' ||
+					char == '-' || char == '.' || char == '_' || char == '~') {
+				builder.WriteByte(char)
+
+				i += 2
+
+				continue
+			}
+		}
+
+		builder.WriteByte(path[i])
+	}
+
+	return builder.String()
 }
